@@ -7,6 +7,7 @@ type gangWatch struct {
 	firedStep int
 	clearStep int // first step at which no confirmation was owed for the application any more (0: still owed)
 	hadReal   bool
+	hadAlloc  bool // an allocated placeholder existed when the timeout fired: its removal is what resumes a Soft application
 }
 
 func (s *Sim) oracleC06(op Op, evs []SIEvent) {
@@ -112,7 +113,15 @@ func (s *Sim) oracleC06(op Op, evs []SIEvent) {
 		if (e.Type == "Failing" || e.Type == "Resuming") && e.Msg == "ResourceReservationTimeout" {
 			s.probe("placeholder_timeout")
 			if s.gang[e.App] == nil {
-				s.gang[e.App] = &gangWatch{style: app.GangStyle, firedStep: s.step}
+				w := &gangWatch{style: app.GangStyle, firedStep: s.step}
+				if pa := s.pre.Apps[e.App]; pa != nil {
+					for _, al := range pa.Allocs {
+						if al.Placeholder {
+							w.hadAlloc = true
+						}
+					}
+				}
+				s.gang[e.App] = w
 			}
 			if e.Type == "Failing" && app.GangStyle != "Hard" {
 				s.violate("C06", "timeout-wrong-outcome", "soft-failed", "Soft gang application %s was failed by the placeholder timeout", e.App)
@@ -162,6 +171,16 @@ func (s *Sim) oracleC06(op Op, evs []SIEvent) {
 		if left > 0 {
 			s.violate("C06", "placeholders-remain-after-timeout", w.style, "%s gang application %s timed out at step %d, nothing has been owed since step %d, but %d placeholder allocations/asks remain", w.style, id, w.firedStep, w.clearStep, left)
 			delete(s.gang, id)
+			continue
+		}
+		// a Soft application resumes normal scheduling: once its last placeholder is gone it is back in Accepted (or
+		// further), it does not stay Resuming
+		if a := p.Apps[id]; a != nil && w.style != "Hard" && w.hadAlloc {
+			s.probe("soft_resume_checked")
+			if a.State == "Resuming" {
+				s.violate("C06", "soft-not-resumed", "", "Soft gang application %s timed out at step %d, nothing has been owed since step %d, no placeholder is left, and it is still Resuming", id, w.firedStep, w.clearStep)
+				delete(s.gang, id)
+			}
 		}
 	}
 	// no placeholder outlives its application
